@@ -18,13 +18,13 @@ BUDGET = {"quick": 240, "thorough": 1200}
 
 PUNCT = ["+", "++", "+=", "-", "--", "-=", "->", ">", ">>", ">=", ">>=", "<", "<<", "<=", "<<=", "=", "==", "!", "!=", "&", "&&", "&=",
          "|", "||", "|=", ".", "...", "/", "/=", "*", "*=", "%", "%=", "^", "^=", "#", "##", ":", "?", ";", ",", "(", ")", "[", "]", "{", "}", "~"]
-IDENT = ["x", "u8", "u", "U", "L", "e", "p", "_1"]
+IDENT = ["x", "u8", "u", "U", "L", "e", "p", "_1", "\u00e9t\u00e9", "x\U0001d6fc", "\\u00e9t", "v\\U0001D6FC"]
 NUM = ["1", "1.", ".5", "0x1p3", "1e3", "1u", "0x1", "1.f", "0"]
 STR = ['"s"', "'c'", 'L"w"', "u8\"s\"", "L'c'", '""']
 ALPHA = PUNCT + IDENT + NUM + STR
 
 
-def is_ident(t): return re.match(r"^[A-Za-z_]\w*$", t) is not None
+def is_ident(t): return re.match(r"^(?:[A-Za-z_\u0080-\U0010ffff]|\\u[0-9A-Fa-f]{4}|\\U[0-9A-Fa-f]{8})(?:\w|[\u0080-\U0010ffff]|\\u[0-9A-Fa-f]{4}|\\U[0-9A-Fa-f]{8})*$", t) is not None
 def is_num(t): return t[0].isdigit() or (t[0] == "." and len(t) > 1 and t[1].isdigit())
 
 
@@ -55,6 +55,23 @@ def constructions(t1, t2, i, tier):
     if arg_ok1 and arg_ok2:
         yield "P(t1,t2)", "#define %s(x,y) x y\n" % P2, "%s(%s,%s)" % (P2, t1, t2)
         yield "P(t1,t2)nosp", "#define %s(x,y) x/**/y\n" % P2, "%s(%s,%s)" % (P2, t1, t2)
+    # white space that is not a blank: a comment, a tab, a form feed, a vertical tab between the two tokens
+    if not t1.endswith("/"):      # `//**/` would start a line comment
+        yield "t1/**/t2", "", "%s/**/%s" % (t1, t2)
+    yield "t1<tab>t2", "", "%s\t%s" % (t1, t2)
+    yield "t1<ff>t2", "", "%s\f%s" % (t1, t2)
+    if not (t2[0].isalnum() or t2[0] in "_\\" or ord(t2[0]) > 127):
+        # a blank, an empty macro, then t2 written directly after the macro name
+        yield "t1 Et2", "#define %s\n" % E, "%s %s%s" % (t1, E, t2)
+        yield "t1 E/**/t2", "#define %s\n" % E, "%s %s/**/%s" % (t1, E, t2)
+    if arg_ok1 and arg_ok2:
+        # a line break inside a macro argument / between arguments / before the closing parenthesis
+        # (a `#` that starts a line inside an argument list would be a directive: undefined, C11 6.10.3p11 - not generated)
+        if t2 != "#":
+            yield "ID(t1<nl>t2)", "#define %s(x) x\n" % ID, "%s(%s\n%s)" % (ID, t1, t2)
+            yield "P(t1,<nl>t2)", "#define %s(x,y) x y\n" % P2, "%s(%s,\n%s)" % (P2, t1, t2)
+        if t1 != "#":
+            yield "ID(<nl>t1<nl>)t2", "#define %s(x) x\n" % ID, "%s(\n%s\n)%s" % (ID, t1, t2)
     if tier == "thorough":
         if arg_ok1 and arg_ok2:
             yield "ID(t1)ID(t2)", "#define %s(x) x\n" % ID, "%s(%s)%s(%s)" % (ID, t1, ID, t2)
@@ -68,6 +85,13 @@ def constructions(t1, t2, i, tier):
 def valid_pair(t1, t2):
     # `#`/`##` only make sense as ordinary tokens away from line start; we always prefix a marker so that is fine.
     return True
+
+
+def canon(tok):
+    """identifier spellings are compared modulo UCN <-> UTF-8 (either spelling denotes the same identifier)"""
+    if "\\u" in tok or "\\U" in tok:
+        return re.sub(r"\\u([0-9A-Fa-f]{4})|\\U([0-9A-Fa-f]{8})", lambda m: chr(int(m.group(1) or m.group(2), 16)), tok)
+    return tok
 
 
 def _run_file(args):
@@ -90,8 +114,9 @@ def _run_file(args):
             got[cur].append(t)
     bad = []
     for i, (cid, defs, line, exp) in enumerate(cases):
-        if got.get(i) != exp:
-            bad.append((i, got.get(i)))
+        g = got.get(i)
+        if g is None or [canon(t) for t in g] != [canon(t) for t in exp]:
+            bad.append((i, g))
     # idempotence
     src2 = os.path.join(wd, "p%d.i.c" % fidx)
     with open(src2, "w") as f:
@@ -139,6 +164,16 @@ UOPS = ["-", "+", "!", "~", "*", "&", "++", "--", "- -", "sizeof", "(int)"]
 def adjacency_programs():
     """Programs whose meaning depends on the separation of an operator and the first token of an adjacent expansion."""
     progs = []
+    for k, name in enumerate(["\u00e9t\u00e9", "lerp_\U0001d6fc", "x\u20ac", "\\u00e9t", "w\\U0001D6FC", "\U00020000z"]):
+        progs.append(("adj\tident\t%d\tglobal" % k, "int %s = %d;\nint get%d(void) { return %s + 1; }\n" % (name, k, k, name)))
+        progs.append(("adj\tident\t%d\tmacro" % k, "#define NAME %s\nint NAME(int a) { return a; }\nint call%d(void) { return NAME(2); }\n" % (name, k)))
+    for bi, b in enumerate(BOPS[:8]):
+        for ui, u in enumerate(("-", "+", "++", "--", "&", "*")):
+            opnd = {"*": "*p", "&": "*&b", "++": "++b", "--": "--b"}.get(u, "%s b" % u)
+            for form, txt in (("comment", "a %s/* c */%s" % (b, opnd)), ("nl-in-arg", "ID(a %s\n%s)" % (b, opnd)), ("tab", "a %s\t%s" % (b, opnd)),
+                              ("E-glued", "a %s E%s" % (b, opnd)), ("ff", "a %s\f%s" % (b, opnd))):
+                progs.append(("adj\t%s\t%s\t%s" % (b, u, form),
+                              "#define ID(x) x\n#define E\nint f%d_%d(int a, int b, int *p) { return (%s); }\n" % (bi, ui, txt)))
     for bi, b in enumerate(BOPS):
         for ui, u in enumerate(UOPS):
             opnd = {"*": "*p", "&": "*&b", "++": "++b", "--": "--b"}.get(u, "%s b" % u)
@@ -257,9 +292,11 @@ def run(ctx):
     res = core.pmap(_roundtrip, jobs, chunksize=8)
     nrt = 0
     skipped = 0
+    skipped_names = []
     for (name, status, detail), job in zip(res, jobs):
         if status.startswith("skip"):
             skipped += 1
+            skipped_names.append("%s: %s %s" % (name.replace("\t", " "), status, detail[:80].replace("\n", " ")))
             continue
         nrt += 1
         if status == "ok":
@@ -287,7 +324,7 @@ def run(ctx):
                   "$CHIBICC -cc1 -E -cc1-input $d/i.c $d/i.c > $d/j.c; cmp -s $d/i.c $d/j.c || exit 1; exit 0") % (sub, rel, rel, rel, rel)
         ctx.violation(sig, "%s: %s %s" % (name.replace("\t", " "), status, detail), files=files, replay=rp)
     distinct = len(set(c[0] for c in cases))
-    ctx.cover(evaluations=judged + nrt, distinct_nontrivial=distinct + nrt, roundtrip_programs=nrt, roundtrip_skipped=skipped,
+    ctx.cover(evaluations=judged + nrt, distinct_nontrivial=distinct + nrt, roundtrip_programs=nrt, roundtrip_skipped=skipped, roundtrip_skipped_programs=skipped_names[:20],
               rule="pair case = (adjacency construction, t1, t2) over a %d-token alphabet, all ordered pairs; judged by re-lexing the -E text; "
                    "round-trip case = one program (tree sources, test/*.c, operator x unary-operator x adjacency-form programs) compiled directly and via its -E output" % len(ALPHA))
     if judged < 1000 or nrt < 50:
